@@ -86,6 +86,15 @@ type c08NoSym struct{}
 
 func (c08NoSym) Symbolize(string, plugin.MappingSources, *profile.Profile) error { return nil }
 
+type c08NoObj struct{}
+
+func (c08NoObj) Open(file string, start, limit, offset uint64, _ string) (plugin.ObjFile, error) {
+	return nil, fmt.Errorf("no object files in this test")
+}
+func (c08NoObj) Disasm(string, uint64, uint64, bool) ([]plugin.Inst, error) {
+	return nil, fmt.Errorf("no object files in this test")
+}
+
 // c08ProfObj is an object tool scripted by the profile itself: every location with a function is a
 // symbol [address, address+7] of its mapping's binary, and disassembles to two instructions.
 type c08ProfObj struct{ p *profile.Profile }
@@ -112,11 +121,13 @@ type c08ProfObjFile struct {
 	name string
 }
 
-func (f c08ProfObjFile) Name() string                              { return f.name }
-func (f c08ProfObjFile) ObjAddr(addr uint64) (uint64, error)       { return addr, nil }
-func (f c08ProfObjFile) BuildID() string                           { return "" }
-func (f c08ProfObjFile) SourceLine(uint64) ([]plugin.Frame, error) { return nil, fmt.Errorf("no source line") }
-func (f c08ProfObjFile) Close() error                              { return nil }
+func (f c08ProfObjFile) Name() string                        { return f.name }
+func (f c08ProfObjFile) ObjAddr(addr uint64) (uint64, error) { return addr, nil }
+func (f c08ProfObjFile) BuildID() string                     { return "" }
+func (f c08ProfObjFile) SourceLine(uint64) ([]plugin.Frame, error) {
+	return nil, fmt.Errorf("no source line")
+}
+func (f c08ProfObjFile) Close() error { return nil }
 func (f c08ProfObjFile) Symbols(r *regexp.Regexp, addr uint64) ([]*plugin.Sym, error) {
 	var out []*plugin.Sym
 	seen := map[uint64]bool{}
@@ -159,38 +170,49 @@ func c08WebPayloads(p *profile.Profile) (map[string]string, error) {
 	}); pn != "" {
 		out["stacks-json"] = "panic: " + pn
 	}
-	var handlers map[string]http.Handler
-	err := driver.PProf(&plugin.Options{
-		Flagset: &c08Flags{set: map[string]string{"http": "localhost:0", "symbolize": "none", "no_browser": "true"}},
-		Fetch:   c08Fetcher{p.Copy()},
-		Sym:     c08NoSym{},
-		Obj:     c08ProfObj{p},
-		UI:      c08QuietUI{},
-		HTTPServer: func(a *plugin.HTTPServerArgs) error {
-			handlers = a.Handlers
-			return nil
-		},
-	})
-	if err != nil || handlers == nil {
-		return out, fmt.Errorf("web UI did not start: %v", err)
-	}
-	for _, target := range c08WebPages {
-		path := target
-		if i := strings.IndexByte(path, '?'); i >= 0 {
-			path = path[:i]
+	// Two servers: without any object file (addresses are listed as "unprocessed": synthesized
+	// source/assembly) and with an object tool scripted by the profile (symbols, disassembly).
+	for _, srv := range []struct {
+		tag   string
+		obj   plugin.ObjTool
+		pages []string
+	}{
+		{"", c08NoObj{}, c08WebPages},
+		{" [objtool]", c08ProfObj{p}, []string{"/disasm?f=.", "/source?f=.", "/disasm?f=fn0|main", "/peek?f=."}},
+	} {
+		var handlers map[string]http.Handler
+		err := driver.PProf(&plugin.Options{
+			Flagset: &c08Flags{set: map[string]string{"http": "localhost:0", "symbolize": "none", "no_browser": "true"}},
+			Fetch:   c08Fetcher{p.Copy()},
+			Sym:     c08NoSym{},
+			Obj:     srv.obj,
+			UI:      c08QuietUI{},
+			HTTPServer: func(a *plugin.HTTPServerArgs) error {
+				handlers = a.Handlers
+				return nil
+			},
+		})
+		if err != nil || handlers == nil {
+			return out, fmt.Errorf("web UI did not start: %v", err)
 		}
-		hd := handlers[path]
-		if hd == nil {
-			out[target] = "no handler"
-			continue
+		for _, target := range srv.pages {
+			path := target
+			if i := strings.IndexByte(path, '?'); i >= 0 {
+				path = path[:i]
+			}
+			hd := handlers[path]
+			if hd == nil {
+				out[target+srv.tag] = "no handler"
+				continue
+			}
+			rec := httptest.NewRecorder()
+			if pn := safely(func() { hd.ServeHTTP(rec, httptest.NewRequest("GET", target, nil)) }); pn != "" {
+				out[target+srv.tag] = "panic: " + pn
+				continue
+			}
+			body, _ := io.ReadAll(rec.Body)
+			out[target+srv.tag] = strconv.Itoa(rec.Code) + "\n" + string(body)
 		}
-		rec := httptest.NewRecorder()
-		if pn := safely(func() { hd.ServeHTTP(rec, httptest.NewRequest("GET", target, nil)) }); pn != "" {
-			out[target] = "panic: " + pn
-			continue
-		}
-		body, _ := io.ReadAll(rec.Body)
-		out[target] = strconv.Itoa(rec.Code) + "\n" + string(body)
 	}
 	return out, nil
 }
@@ -213,6 +235,17 @@ func runC08Child(c *Ctx) {
 	if err != nil {
 		pl["error"] = err.Error()
 	}
+	// legacy inputs of the "parse" stream: one more parse in this fresh process
+	if lf := os.Getenv("C08_CHILD_LEGACY"); lf != "" {
+		if lb, err := os.ReadFile(lf); err == nil {
+			var ins []string
+			if json.Unmarshal(lb, &ins) == nil {
+				for i, in := range ins {
+					pl[fmt.Sprintf("legacy-parse-%d", i)] = c08ParseOnce("ParseData", in)
+				}
+			}
+		}
+	}
 	enc := map[string]string{}
 	for k, v := range pl {
 		enc[k] = hex.EncodeToString([]byte(v))
@@ -226,19 +259,20 @@ func runC08Child(c *Ctx) {
 // ---------- parent ----------
 
 type c08WebCase struct {
-	Kind    string `json:"kind"` // "web"
-	Profile string `json:"profile"`
-	Procs   int    `json:"processes"`
-	Payload string `json:"payload,omitempty"`
-	Out1    string `json:"output_1,omitempty"`
-	Out2    string `json:"output_2,omitempty"`
+	Kind    string   `json:"kind"` // "web"
+	Profile string   `json:"profile"`
+	Procs   int      `json:"processes"`
+	Legacy  []string `json:"legacy_inputs,omitempty"` // also parsed in every child (payloads legacy-parse-i)
+	Payload string   `json:"payload,omitempty"`
+	Out1    string   `json:"output_1,omitempty"`
+	Out2    string   `json:"output_2,omitempty"`
 }
 
-func c08SpawnChild(tmp string, id int, canonFile string) (map[string]string, error) {
+func c08SpawnChild(tmp string, id int, canonFile, legacyFile string) (map[string]string, error) {
 	outp := filepath.Join(tmp, fmt.Sprintf("child-%d.json", id))
 	res := filepath.Join(tmp, fmt.Sprintf("child-%d.res", id))
 	cmd := exec.Command(os.Args[0], "-prop", "C08child", "-tier", "quick", "-seed", "1", "-dir", tmp, "-out", res)
-	cmd.Env = []string{"C08_CHILD_IN=" + canonFile, "C08_CHILD_OUT=" + outp, "HOME=" + tmp, "PPROF_TMPDIR=" + tmp, "PPROF_BINARY_PATH=" + tmp, "PATH=/nonexistent", "TZ=UTC"}
+	cmd.Env = []string{"C08_CHILD_IN=" + canonFile, "C08_CHILD_OUT=" + outp, "C08_CHILD_LEGACY=" + legacyFile, "HOME=" + tmp, "PPROF_TMPDIR=" + tmp, "PPROF_BINARY_PATH=" + tmp, "PATH=/nonexistent", "TZ=UTC"}
 	var stderr bytes.Buffer
 	cmd.Stderr = &stderr
 	if err := cmd.Run(); err != nil {
@@ -263,7 +297,7 @@ func c08SpawnChild(tmp string, id int, canonFile string) (map[string]string, err
 }
 
 // c08WebCompare runs `procs` children on each profile (all in parallel, 16 at a time) and compares.
-func c08WebCompare(c *Ctx, canons []string, procs int) {
+func c08WebCompare(c *Ctx, canons []string, procs int, legacy []string) {
 	tmp, err := os.MkdirTemp("", "c08web-")
 	if err != nil {
 		c.Res.HarnessError = err.Error()
@@ -274,6 +308,15 @@ func c08WebCompare(c *Ctx, canons []string, procs int) {
 		prof, k int
 		out     map[string]string
 		err     error
+	}
+	legacyFile := ""
+	if len(legacy) > 0 {
+		legacyFile = filepath.Join(tmp, "legacy.json")
+		lb, _ := json.Marshal(legacy)
+		if err := os.WriteFile(legacyFile, lb, 0o644); err != nil {
+			c.Res.HarnessError = err.Error()
+			return
+		}
 	}
 	var jobs []*job
 	for i, cn := range canons {
@@ -292,7 +335,7 @@ func c08WebCompare(c *Ctx, canons []string, procs int) {
 		go func() {
 			defer wg.Done()
 			for j := range ch {
-				j.out, j.err = c08SpawnChild(tmp, j.prof*100+j.k, filepath.Join(tmp, fmt.Sprintf("p%d.canon", j.prof)))
+				j.out, j.err = c08SpawnChild(tmp, j.prof*100+j.k, filepath.Join(tmp, fmt.Sprintf("p%d.canon", j.prof)), legacyFile)
 			}
 		}()
 	}
@@ -324,7 +367,7 @@ func c08WebCompare(c *Ctx, canons []string, procs int) {
 			sort.Strings(names)
 			for _, n := range names {
 				if j.out[n] != first[n] {
-					cs := c08WebCase{Kind: "web", Profile: cn, Procs: 2 * procs, Payload: n, Out1: c08ShowOut([]byte(first[n])), Out2: c08ShowOut([]byte(j.out[n]))}
+					cs := c08WebCase{Kind: "web", Profile: cn, Procs: 2 * procs, Legacy: legacy, Payload: n, Out1: c08ShowOut([]byte(first[n])), Out2: c08ShowOut([]byte(j.out[n]))}
 					c.Violation("C08/web/"+n+"/differs-between-processes", "the web UI payload "+n+" of the same profile differs between fresh processes", cs)
 				}
 			}
@@ -367,7 +410,7 @@ func c08LimitsProfile(r *Rng) *profile.Profile {
 	return p
 }
 
-func c08WebStream(c *Ctx, r *Rng, n, procs int) {
+func c08WebStream(c *Ctx, r *Rng, n, procs int, legacy []string) {
 	var canons []string
 	for i := 0; i < 2+n/6; i++ {
 		canons = append(canons, Canon(c08LimitsProfile(r)))
@@ -381,7 +424,7 @@ func c08WebStream(c *Ctx, r *Rng, n, procs int) {
 		}
 		canons = append(canons, Canon(p))
 	}
-	c08WebCompare(c, canons, procs)
+	c08WebCompare(c, canons, procs, legacy)
 }
 
 // ---------- concurrent serialisation of one profile ----------
